@@ -490,7 +490,13 @@ func (w *World) callbacks(h *StoreH, cmpOf func(name string) int) gkvlite.StoreC
 	}
 	if mask&CBKeyCompare != 0 {
 		cb.KeyCompareForCollection = func(name string) gkvlite.KeyCompare {
-			return w.cmpFunc(cmpOf(name))
+			id := cmpOf(name)
+			if id == 0 && chunk%2 == 0 {
+				// documented: nil means "use the default bytes.Compare"
+				w.probe("keycompare-callback-returned-nil")
+				return nil
+			}
+			return w.cmpFunc(id)
 		}
 	}
 	return cb
@@ -507,6 +513,9 @@ type Ledger struct {
 	Resurrected []string
 	Tagged     map[*gkvlite.Item]bool // allocated while reading through a possibly superseded version
 	Negative []string
+	Pooled   map[*gkvlite.Item]bool // allocated by ItemAlloc: buffers belong to the allocator again at count 0
+	NoPoison bool
+	Poisoned int
 	AddRefs  int
 	DecRefs  int
 	Allocs   int
@@ -516,7 +525,14 @@ func NewLedger() *Ledger {
 	return &Ledger{Count: map[*gkvlite.Item]int{}, Harness: map[*gkvlite.Item]int{}, Tagged: map[*gkvlite.Item]bool{}, Dead: map[*gkvlite.Item]bool{}}
 }
 
-func (l *Ledger) Alloc(i *gkvlite.Item) { l.Count[i] = 1; l.Allocs++ }
+func (l *Ledger) Alloc(i *gkvlite.Item) {
+	l.Count[i] = 1
+	l.Allocs++
+	if l.Pooled == nil {
+		l.Pooled = map[*gkvlite.Item]bool{}
+	}
+	l.Pooled[i] = true
+}
 func (l *Ledger) New(i *gkvlite.Item)   { l.Count[i] = 1 }
 func (l *Ledger) AddRef(i *gkvlite.Item) {
 	l.LastAddRef = i
@@ -538,6 +554,19 @@ func (l *Ledger) DecRef(i *gkvlite.Item) {
 	l.DecRefs++
 	if l.Count[i] == 0 {
 		l.Dead[i] = true
+		if l.Pooled[i] && !l.NoPoison {
+			// what a recycling allocator (tools/slab) does with an item whose
+			// last reference is gone: its buffers are reused.  Whoever still
+			// reads the item afterwards sees this, deterministically.
+			for k := range i.Key {
+				i.Key[k] = 0xdd
+			}
+			for k := range i.Val {
+				i.Val[k] = 0xdd
+			}
+			i.Priority = -0x0dddddd
+			l.Poisoned++
+		}
 	}
 	if l.Count[i] < 0 && len(l.Negative) < 5 {
 		k := ""
